@@ -201,6 +201,7 @@ def run_once(spec, limit, tag):
 
 class C10(Property):
     id = "C10"
+    anchors = ('finam.sdk.output:Output._pack', 'finam.sdk.output:Output._unpack', 'finam.adapters.time:TimeCachingAdapter._clear_cached_data', 'finam.adapters.time:TimeCachingAdapter._finalize', 'finam.sdk.output:Output.finalize')
     technique = "differential monitor (memory limit vs none) on real compositions + sys.addaudithook file ledger (created/removed paths) independent of directory listings"
     rule = (
         "per case one or two buffering slots from {plain output, next, previous, linear, step(0|.5), avg (linear|step), sum (per-time|absolute) x "
